@@ -23,6 +23,7 @@ def expected_name(argv0):
 
 class C11(Property):
     pid = "C11"
+    exact_text = True
     quick_n = 300
     thorough_n = 20000
     partial = ["the theorem is about the model's Process.run; that a real child process behaves as run_inner predicts is "
